@@ -403,6 +403,12 @@ def monitor_scripted(rep, case, log, res):
                               len(log), canon_res(res)[:80], case['op']),
                           {k: v for k, v in case.items() if not k.startswith('_')})
             return True
+    # an error status on any page is the call's outcome: the pages fetched so far are not "the listing"
+    if replies and replies[-1] >= 400 and res[0] == 'ok' and not flag_raises:
+        rep.violation('C20/partial-listing-after-error', 'page request %d was answered %d and the call returned %d item(s) as if the listing '
+                      'were complete (%s)' % (len(replies), replies[-1], len(res[1]) if isinstance(res[1], list) else -1, case['op']),
+                      {k: v for k, v in case.items() if not k.startswith('_')})
+        return True
     for i, st in enumerate(replies[:-1]):
         if st >= 400:
             rep.violation('C20/request-after-error', 'request %d was answered %d, yet %d more request(s) followed (%s)' % (
@@ -467,16 +473,16 @@ def script_line(case):
 # ------------------------------------------------------------------------------------------------
 # generators
 # ------------------------------------------------------------------------------------------------
-PREFIXES = ['q', 'queue-', 'é', 'a b.', 'x/y#']
-REGEXES = ['^%s1', '3$', '[02468]$', '%s(1|2)\\d*$', '.', '^$', '\\d\\d']
+PREFIXES = ['q', 'queue-', 'é', 'a b.', 'x/y#', 'Jobs-', 'ÄB']
+REGEXES = ['^%s1', '3$', '[02468]$', '%s(1|2)\\d*$', '.', '^$', '\\d\\d', '\\D+\\d$', '^\\S+$', '\\W?\\d']
 VHOSTS = ['/', 'prod', 'a/b', 'my vhost', 'ü-host', 'a%41', 'x?y#z', '&=+', '%2F', '~tilde_.-']
 SHAPES = [('queue.list', False), ('queue.list', True), ('exchange.list', False), ('exchange.list', True),
           ('connection.list', None), ('channel.list', None)]
 
 
 def rand_text(rng, maxlen=6):
-    pools = ['abcq0123456789', 'q-._~', ' /?#&=+%', 'éüß', '雪𝄞']
-    return ''.join(rng.choice(rng.choice(pools[:rng.choice([1, 2, 3, 5])])) for _ in range(rng.randint(0, maxlen)))
+    pools = ['abcq0123456789', 'q-._~', ' /?#&=+%', 'éüß', '雪𝄞', 'ABCQZÄ']
+    return ''.join(rng.choice(rng.choice(pools[:rng.choice([1, 2, 3, 5, 6, 6])])) for _ in range(rng.randint(0, maxlen)))
 
 
 def make_case(rng, shape, n, p, filt, idx=0):
